@@ -97,6 +97,7 @@ class ArrV:
 class FuncV:
     node: Node
     targs: tuple
+    captured: tuple = ()    # values bound by guppylang.partial (a closure / bound method)
 
 
 @dataclass(frozen=True)
@@ -392,7 +393,7 @@ class Interp:
         if isinstance(op, ops.CallIndirect):
             fv = args[0]
             self._want(fv, FuncV, k)
-            return self.call(fv.node, args[1:], fv.targs)
+            return self.call(fv.node, list(fv.captured) + args[1:], fv.targs)
         if isinstance(op, ops.Conditional):
             s = args[0]
             self._want(s, SumV, k)
@@ -553,6 +554,15 @@ def op(*names):
         return f
 
     return deco
+
+
+@op("guppylang.partial")
+def _partial(I, ta, a, k):
+    # (*captured, *rest -> *out), *captured -> (*rest -> *out)
+    fv = a[0]
+    if not isinstance(fv, FuncV):
+        raise InterpError(f"partial of {fv!r}")
+    return [FuncV(fv.node, fv.targs, fv.captured + tuple(a[1:]))]
 
 
 def _bits(ta) -> int:
